@@ -102,13 +102,30 @@ class _C06(Spec):
             for b in ("hijri", "jalali", "gregorian"):
                 reqs.append("byname conv - %s %s %s %d" % (a, b, names[(n * 5 + 2) % len(names)], 2440588 + 1000 * n))
                 n += 1
+        # whole windows of consecutive days, each day as the FIRST call of its own process (state that is
+        # set up lazily by the first call shows only there): into hijri inside and around the month
+        # table, and a literal date converted into each calendar
+        span = 150 if tier == "quick" else 1200
+        base = 2455600 + rng.randrange(0, 2000)
+        for k in range(span):
+            reqs.append("byname conv - hijri jalali gregorian %d" % (base + k))
+        for k in range(span // 3):
+            jd = 2453300 + rng.randrange(0, 7000)
+            reqs.append("byname conv - gregorian hijri jalali %d" % jd)
+            reqs.append("byname conv - jalali hijri gregorian %d" % jd)
+        for a in names:
+            for b in names:
+                reqs.append("byname convraw - %s %s %d %d %d" % (a, b, rng.choice([1390, 1400, 1430, 1440, 2011, 2015]), rng.randint(1, 12), rng.randint(1, 28)))
         reqs.append("byname conv - hijri hijri hijri 2456957")
         reqs.append("byname convraw - hijri gregorian 1440 1 1")
         reqs.append("byname convraw - no_such_calendar gregorian 2020 2 29")
         reqs.append("byname convraw - gregorian no_such_calendar 2020 2 29")
-        for rq in reqs:
+        # the model is stateless here: one driver process answers all; the real code gets a fresh
+        # process per request
+        mall, _ = core.ask(core.DRIVER, reqs)
+        for idx, rq in enumerate(reqs):
             iresp, raw = core.ask(core.ORACLE, [rq])
-            mresp, _ = core.ask(core.DRIVER, [rq])
+            mresp = [mall[idx]]
             for item in raw[0].split("\t")[1:]:
                 if item.startswith("!PROP C06 "):
                     failing.append(("byname-fresh-process", rq, "fresh-process " + item[len("!PROP C06 "):]))
